@@ -10,6 +10,7 @@ import (
 	"sort"
 	"strings"
 	"testing"
+	"time"
 
 	"github.com/jrhy/s3db"
 	crdtpub "github.com/jrhy/s3db/kv/crdt"
@@ -54,7 +55,10 @@ func rowState(seq []Stmt) (*crdtpub.Value, error) {
 		if !s.wellFormed() {
 			continue
 		}
-		if err := conn.SetWriteTime(baseTime + s.T); err != nil {
+		// write times with a sub-second part (what wall-clock write times have): T counts eighths
+		// of a second, so statements with neighbouring T are less than a second apart
+		wt := time.Unix(baseTime+s.T/8, (s.T%8)*125_000_000).UTC().Format("2006-01-02 15:04:05.000")
+		if err := conn.Exec("update s3db_conn set write_time=?", wt); err != nil {
 			return nil, err
 		}
 		q, args := s.SQL(tn, "k")
